@@ -172,6 +172,17 @@ fn mac(m: &Macro) -> Value {
     let parser = punctuated::Punctuated::<Expr, Token![,]>::parse_terminated;
     if let Ok(args) = parse::Parser::parse2(parser, m.tokens.clone()) {
         o.insert("args".into(), Value::Array(args.iter().map(expr).collect()));
+    } else if let Ok((x, n)) = parse::Parser::parse2(
+        |input: parse::ParseStream| {
+            let x: Expr = input.parse()?;
+            input.parse::<Token![;]>()?;
+            let n: Expr = input.parse()?;
+            Ok((x, n))
+        },
+        m.tokens.clone(),
+    ) {
+        // vec![x; n]
+        o.insert("repeat".into(), Value::Array(vec![expr(&x), expr(&n)]));
     } else if let Ok(b) = parse::Parser::parse2(Block::parse_within, m.tokens.clone()) {
         // e.g. macro bodies that are statement lists
         if !b.is_empty() {
